@@ -119,6 +119,14 @@ def token_sites():
                 ok = "match.start(" in s_txt or s_txt in ("comment_index",) or "start_index" in s_txt
                 if m != "liquid.lex":
                     ok = ok and (("start_index +" in s_txt or "+ " in s_txt) or "token.start_index" in s_txt)
+                # the offset is the START of the very group the value was cut from
+                vsrc = val
+                if isinstance(val, ast.Name):
+                    defs = [a.value for a in ast.walk(fn) if isinstance(a, ast.Assign) and any(isinstance(t, ast.Name) and t.id == val.id for t in a.targets) and a.lineno < call.lineno]
+                    vsrc = defs[-1] if defs else val
+                if m != "liquid.builtin.expressions._tokenize" and isinstance(vsrc, ast.Call) and flow.dotted(vsrc.func) == "match.group":  # (the expression tokenizer points at the whole token, quotes included: contract above)
+                    grp = ast.unparse(vsrc.args[0]) if vsrc.args else ""
+                    ok = ok and (f"match.start({grp})" in s_txt) and "match.end(" not in s_txt
                 obs.append(flow.ob(f"{m.split('.')[-1]}.{fn.name}@{call.lineno - fn.lineno}:start_index-from-match-offset", ok, f"Token(value={flow.dotted(val)[:40] if val is not None else '?'}, start_index={s_txt[:70]})", replay_schema="code", replay_extra={"code": REPLAY}))
     obs.append(flow.ob("token-constructions-found", n >= 12, f"{n} Token(...) sites"))
     return obs
